@@ -114,19 +114,33 @@ func rawUp(label, to string, fp *failPlan) func(json.RawMessage) (json.RawMessag
 }
 
 type world struct {
-	bus   *ebu.EventBus
-	store *ebu.MemoryStore
-	reg   *registry
-	fp    *failPlan
-	errs  []errCall
-	names []string
+	bus          *ebu.EventBus
+	store        *ebu.MemoryStore
+	reg          *registry
+	fp           *failPlan
+	errs         []errCall
+	names        []string
+	optLabels    []string
+	duringReplay func(i int) // called by the replay callback after event i (registry changes from inside the callback)
 }
 
-func newWorld() *world {
+// newWorld builds the bus; viaOptions registers these raw edges through the WithUpcast option.
+func newWorld(viaOptions [][2]string) *world {
 	w := &world{store: ebu.NewMemoryStore(), reg: &registry{ups: map[string][]*mup{}}, fp: &failPlan{}}
-	w.bus = ebu.New(ebu.WithStore(w.store), ebu.WithUpcastErrorHandler(func(t string, d json.RawMessage, err error) {
+	opts := []ebu.Option{ebu.WithStore(w.store), ebu.WithUpcastErrorHandler(func(t string, d json.RawMessage, err error) {
 		w.errs = append(w.errs, errCall{Type: t, Data: string(d)})
-	}))
+	})}
+	for i, e := range viaOptions {
+		if e[0] == e[1] || w.reaches(e[1], e[0]) {
+			continue
+		}
+		label := fmt.Sprintf("o%d", i)
+		f := rawUp(label, e[1], w.fp)
+		opts = append(opts, ebu.WithUpcast(e[0], e[1], f))
+		w.reg.ups[e[0]] = append(w.reg.ups[e[0]], &mup{from: e[0], to: e[1], label: label, f: f})
+		w.optLabels = append(w.optLabels, label)
+	}
+	w.bus = ebu.New(opts...)
 	return w
 }
 
@@ -239,6 +253,9 @@ func (w *world) replayCheck(run *vk.Run, log []stored, witness map[string]any, p
 		if e.Offset != s.off || !e.Timestamp.Equal(s.ts) {
 			viol("offset-or-timestamp-changed", fmt.Sprintf("event %d: offset %q (stored %q), timestamp %v (stored %v)", s.id, e.Offset, s.off, e.Timestamp, s.ts))
 		}
+		if w.duringReplay != nil {
+			w.duringReplay(i - 1)
+		}
 		return nil
 	})
 	if err != nil {
@@ -329,15 +346,24 @@ func TestC17(t *testing.T) {
 	n := run.Scale(250, 8000)
 	for c := 0; c < n; c++ {
 		r := run.Rand(uint64(c))
-		w := newWorld()
 		nNames := 3 + r.IntN(6)
 		names := []string{nV1, nV2, nV3}
 		for i := 0; i < nNames; i++ {
 			names = append(names, fmt.Sprintf("raw.%c", 'A'+i))
 		}
+		var viaOpt [][2]string
+		if c%2 == 1 {
+			for k := 0; k < 1+r.IntN(3); k++ {
+				viaOpt = append(viaOpt, [2]string{names[r.IntN(len(names))], names[r.IntN(len(names))]})
+			}
+		}
+		w := newWorld(viaOpt)
 		w.names = names
-		var labels []string
+		labels := append([]string{}, w.optLabels...)
 		var regLog []string
+		for _, l := range w.optLabels {
+			regLog = append(regLog, "WithUpcast option "+l)
+		}
 		addRandom := func(k int) {
 			for i := 0; i < k; i++ {
 				switch x := r.IntN(10); {
@@ -408,7 +434,23 @@ func TestC17(t *testing.T) {
 			}
 		}
 		w.fp.label = ""
-		switch r.IntN(3) {
+		switch r.IntN(5) {
+		case 3:
+			w.bus.ClearUpcasts()
+			w.reg.ups = map[string][]*mup{}
+			regLog = append(regLog, "ClearUpcasts()")
+			addRandom(1 + r.IntN(3))
+		case 4:
+			// a registration made from inside the replay callback takes effect for the following events
+			at := r.IntN(len(log))
+			w.duringReplay = func(i int) {
+				if i == at {
+					addRandom(1 + r.IntN(2))
+				}
+			}
+			w.fp.label = ""
+			w.replayCheck(run, log, witness, "phase2-registration-inside-the-callback")
+			w.duringReplay = nil
 		case 0:
 			addRandom(1 + r.IntN(4))
 		case 1:
